@@ -25,7 +25,7 @@ ARG_OFF = REPORT  # one word of arguments for children
 KIDS_OFF = REPORT + 32
 
 CALL_KINDS = ["CALL", "STATICCALL", "DELEGATECALL", "CALLCODE"]
-OUTCOMES = ["return", "return", "return", "revert", "invalid", "oob", "stop", "static_write", "short", "short_revert"]
+OUTCOMES = ["return", "return", "return", "revert", "invalid", "oob", "stop", "static_write", "short", "short_revert", "split_fail", "split_mixed"]
 
 
 @dataclass
@@ -48,8 +48,11 @@ def _effects(rnd, nin) -> list:
         k = rnd.random()
         val = ("in", rnd.randrange(nin)) if rnd.random() < 0.6 else ("c", rnd.choice([1, 2, 7, 2**255]))
         slot = rnd.choice([0, 0, 1, 2])
-        if k < 0.55:
+        if k < 0.4:
             out.append(("SSTORE", slot, val))
+        elif k < 0.55:
+            # read-modify-write: what is stored depends on what the frame finds (rolled-back or leaked state shows)
+            out.append((rnd.choice(["SINC", "SINC", "TINC"]), slot, val))
         elif k < 0.8:
             out.append(("TSTORE", slot, val))
         else:
@@ -113,6 +116,9 @@ def _effect_code(e) -> list:
         for t in range(a):
             out += [("PUSH", 0x70 + t)]
         return out + [("PUSH", 32), ("PUSH", 0x1F00), f"LOG{a}"]
+    if op in ("SINC", "TINC"):
+        ld, st = ("SLOAD", "SSTORE") if op == "SINC" else ("TLOAD", "TSTORE")
+        return [("PUSH", a), ld, ("PUSH", 1), "ADD", ("PUSH", a), st]
     return compile_expr(val) + [("PUSH", a), op]
 
 
@@ -199,6 +205,12 @@ def node_code(n: Node, accounts: dict) -> bytes:
         body += [("PUSH", 2), ("PUSH", 30), "REVERT"]
     elif n.outcome == "revert":
         body += [("PUSHN", 2, total), ("PUSH", 0), "REVERT"]
+    elif n.outcome in ("split_fail", "split_mixed"):
+        # the frame ends in two different ways depending on a symbolic bit of its argument: the caller continues once
+        # per way, each continuation from its own copy of the state
+        lab = f"sp{n.addr:x}"
+        body += [("PUSH", 0), "CALLDATALOAD", ("PUSH", 1), "AND", ("PUSHL", lab), "JUMPI", ("PUSH", 2), ("PUSH", 30), "REVERT", ("LABEL", lab)]
+        body += ["INVALID"] if n.outcome == "split_fail" else [("PUSHN", 2, total), ("PUSH", 0), "RETURN"]
     elif n.outcome == "invalid":
         body += ["INVALID"]
     elif n.outcome == "oob":
